@@ -74,6 +74,11 @@ CHECKS["C10"] = dict(engine="MarkdownDoc", ref="3 (C10)",
     note="Trusted: TLC; the scanner (30 lines, checked against the spec's chunk computation on every record); line terminators normalised. Documents rejected or read differently by the parser are C06's subject.",
     technique="TLA+ document model + update property predicates, enumerated documents x outcome assignments replayed into MarkdownUpdateGenerator, TLC judgement of every record")
 
+CHECKS["C16"] = dict(engine="ConfigLayers", ref="3 (C16)",
+    text="specs/ConfigLayers.tla models the four layers (cli > test case > document defaults > format) over 7 scalar keys and 2 environment variables with values {unset, A, B}, the binary step Merge and the fold in the order of the three call sites (parser, test command, executor); TLC proves on 6755 assignments (focus key x all 3^4 layer assignments x interfering key; both environment variables over three layers) that the effective value is that of the highest layer that sets it, that Merge is associative, that an empty layer is neutral and that prepend/append accumulate in order. Each assignment is concretised and pushed through the real with_defaults_from / with_overrides_from in the call order of markdown.rs, test.rs and stateful_executor.rs (plus DocumentConfig layering with lists, shell, total_timeout); 123 assignments whose effect is observable (environment variables, output_stream, keep_crlf) are also materialised as documents + flags and run with the real binary. TLC judges every record with PrecedenceOK on the observed effective configuration.",
+    note="Trusted: TLC; the harness reproduces the three call sites by hand (a change of the call order inside scrut is only seen by the end-to-end part).",
+    technique="TLA+ layering model (Merge/Effective), TLC proof of precedence/associativity/identity on all assignments, replay into the real merge functions and the real binary, TLC judgement")
+
 NOT_YET = {
 }
 
@@ -124,6 +129,7 @@ def main():
             {"name": "ExpectationGrammar", "path": "specs/ExpectationGrammar.tla", "serves_properties": ["C08"], "kind_free_text": "token-level grammar of expectation lines (ParseRef), MC_ExpectationGrammar (GEN + sanity), ExpectationTrace (judgement of real parses and round trips)"},
             {"name": "Escape", "path": "specs/Escape.tla", "serves_properties": ["C11"], "kind_free_text": "byte-level model of escaper and escaped-text reader, MC_Escape (lossless/printable + GEN), EscapeTrace (judgement of real escaper output)"},
             {"name": "Generate", "path": "specs/Generate.tla", "serves_properties": ["C09"], "kind_free_text": "line-class model of command output and its collisions with document syntax; MC_Generate (enumeration), GenerateTrace (judgement of real generate;parse;validate runs)"},
+            {"name": "ConfigLayers", "path": "specs/ConfigLayers.tla", "serves_properties": ["C16"], "kind_free_text": "layering model of configuration (Merge, Effective, PrecedenceOK), MC_ConfigLayers, ConfigTrace"},
             {"name": "Rules", "path": "specs/Rules.tla", "serves_properties": ["C04"],
              "kind_free_text": "TLA+ reference semantics of the expectation kinds; MC_Rules (enumeration + sanity), RulesTrace (re-evaluation of implementation answers)"},
         ],
